@@ -31,7 +31,9 @@ CONSTANTS Ids,        \* identifiers
           Kinds,      \* kinds generated, subset of {"obj", "func"}
           Family,     \* "all" | "declarators" (one declaration with an init-declarator list of up to MaxLen declarators
                       \* x, y, z: event field join = TRUE means "joined to the previous declarator by a comma"; the
-                      \* list is semantically the sequence of its declarators, so neither half reads `join`) | "tentative": only file-scope object declarations `int x;` `int x = v;` `static int x;`
+                      \* list is semantically the sequence of its declarators, so neither half reads `join`) |
+                      \* "funcname" (uses of __func__, evaluated or under sizeof, and block-scope statics, in function
+                      \* bodies and nested blocks) | "tentative": only file-scope object declarations `int x;` `int x = v;` `static int x;`
                       \* `static int x = v;` `extern int x;` of several identifiers, identifiers introduced in a fixed order
                       \* (every interleaving of their histories: the shared tentative-definition list)
           DevsOn,     \* deviations switched on in the model compared with the binary
@@ -77,7 +79,7 @@ LinkFn(h) ==
                 ELSE IF d.sc = "extern" THEN inherit ELSE "none"                \* p6
   IN L
 
-Resolve1(h, id, skip) ==
+ResolveId(h, id, skip) ==
   LET n    == Len(h)
       I    == {i \in 1..n : h[i].id = id}
       L    == LinkFn(h)
@@ -201,6 +203,28 @@ AuditEx(h) ==
   IN (IF inlundef THEN {"gcc-warns-only-for-undefined-static-inline(6.9p3)"} ELSE {})
      \cup (IF blockinl THEN {"gcc-counts-block-scope-declarations-for-inline-definition(6.7.4p7)"} ELSE {})
 
+(* The predefined identifier __func__ (6.4.2.2): in every function definition an implicit block-scope      *)
+(* `static const char __func__[] = "name";` -- no linkage, static storage, one object per function.  History *)
+(* events of kind "fname" are uses of it at a block path (def = "eval": the array is evaluated, e.g. decays   *)
+(* to a pointer argument; def = "sizeof": operand of sizeof only).  The object is a local definition of the    *)
+(* unit exactly when the function evaluates it; ent/at = the first evaluating use (where it is emitted).      *)
+FnId == "__func__"
+ResolveFn(h) ==
+  LET F      == {i \in 1..Len(h) : h[i].kind = "fname"}
+      Fn(i)  == h[i].path[1]
+      Ev(b)  == {i \in F : Fn(i) = b /\ h[i].def = "eval"}
+      Fst(b) == CHOOSE i \in Ev(b) : \A j \in Ev(b) : i <= j
+      defs   == {[id |-> FnId, sym |-> FnId, ent |-> Fst(b), kind |-> "obj", export |-> FALSE, thread |-> FALSE,
+                  zero |-> FALSE, at |-> Fst(b)] : b \in {Fn(i) : i \in {j \in F : h[j].def = "eval"}}}
+      uses   == {IF h[i].def = "eval"
+                 THEN [at |-> i, id |-> FnId, cls |-> "static", sym |-> FnId, thr |-> FALSE, ent |-> Fst(Fn(i))]
+                 ELSE [at |-> i, id |-> FnId, cls |-> "const", sym |-> "", thr |-> FALSE, ent |-> 0] : i \in F}
+  IN [id |-> FnId, err |-> "", ub |-> "", link |-> "none", kind |-> "obj", ndefs |-> Cardinality(defs),
+      emitted |-> IF defs = {} THEN "none" ELSE "local", tentativeZero |-> FALSE, thread |-> FALSE, inlinedef |-> FALSE,
+      undefinedRefIfUsed |-> FALSE, defs |-> defs, uses |-> uses]
+
+Resolve1(h, id, skip) == IF id = FnId THEN ResolveFn(h) ELSE ResolveId(h, id, skip)
+
 Resolve(h, skip) ==
   LET R    == [id \in IdsOf(h) |-> Resolve1(h, id, skip)]
       ubs  == {R[id].ub : id \in IdsOf(h)} \ {""}
@@ -229,7 +253,7 @@ Summary(h, skip) ==   \* the record named in the property text, per identifier (
 (*       declcommon asks for; only the repaired model consults it.             *)
 
 M0 == [heap |-> <<>>, tent |-> <<>>, out |-> <<>>, uses |-> <<>>, useh |-> <<>>, err |-> "", erri |-> 0, gid |-> 0,
-       fired |-> {}, lthr |-> {}]
+       fired |-> {}, lthr |-> {}, fnemit |-> {}]
 
 Fail(m, rule, i) == [m EXCEPT !.err = rule, !.erri = i]
 Fire(m, dev) == [m EXCEPT !.fired = @ \cup {dev}]
@@ -393,8 +417,25 @@ Phase1(m, d, i, D) ==
 Phase2(m, d, i, h, D) ==
   IF d.kind = "obj" THEN ObjPhase2(m, d, i, h, D) ELSE FuncPhase2(m, d, i, h, D)
 
+(* a use of __func__ (qbe.c: mkfunc creates f->namedecl with mkglobal; funclval emits its data definition at   *)
+(* the first evaluated use and clears f->namedecl).  fnemit: {[b, at]} functions whose object was emitted.      *)
+ImplFname(m, d, i) ==
+  LET b == d.path[1]
+      done == \E e \in m.fnemit : e.b = b
+      at0 == IF done THEN (CHOOSE e \in m.fnemit : e.b = b).at ELSE i
+      m1 == IF d.def = "eval" /\ ~done
+            THEN [m EXCEPT !.out = Append(@, [id |-> FnId, sym |-> FnId, ent |-> i, kind |-> "obj", export |-> FALSE,
+                                             thread |-> FALSE, zero |-> FALSE, at |-> i]),
+                           !.fnemit = @ \cup {[b |-> b, at |-> i]}]
+            ELSE m
+      u == IF d.def = "eval"
+           THEN [at |-> i, id |-> FnId, cls |-> "static", sym |-> FnId, thr |-> FALSE, ent |-> at0]
+           ELSE [at |-> i, id |-> FnId, cls |-> "const", sym |-> "", thr |-> FALSE, ent |-> 0]
+  IN [m1 EXCEPT !.uses = Append(@, u), !.useh = Append(@, 0)]
+
 ImplDecl(m, d, i, D) ==
   IF m.err # "" THEN m
+  ELSE IF d.kind = "fname" THEN ImplFname(m, d, i)
   ELSE LET p == Phase1(m, d, i, D) IN
        IF p.m.err # "" THEN p.m ELSE Phase2(p.m, d, i, p.h, D)
 
@@ -409,10 +450,11 @@ ImplEnd(m, D, skip) ==
   IF m.err # "" THEN m
   ELSE LET m1 == FlushTent(m, 1)
            bad == \E u \in 1..Len(m1.uses) :
-                    LET r == m1.heap[m1.useh[u]] IN
-                    /\ m1.uses[u].at \notin skip /\ r.kind = "func" /\ r.link = "int"
-                    /\ ~\E k \in 1..Len(m1.heap) : m1.heap[k].id = r.id /\ m1.heap[k].kind = "func"
-                                                    /\ m1.heap[k].link = "int" /\ m1.heap[k].defined
+                    /\ m1.useh[u] # 0
+                    /\ LET r == m1.heap[m1.useh[u]] IN
+                         /\ m1.uses[u].at \notin skip /\ r.kind = "func" /\ r.link = "int"
+                         /\ ~\E k \in 1..Len(m1.heap) : m1.heap[k].id = r.id /\ m1.heap[k].kind = "func"
+                                                         /\ m1.heap[k].link = "int" /\ m1.heap[k].defined
        IN IF ~bad THEN m1
           ELSE IF "NoUsedInternalUndefDiag" \in D THEN Fire(m1, "NoUsedInternalUndefDiag")
           ELSE Fail(m1, "internal-used-undefined", 0)
@@ -448,6 +490,9 @@ BlockForms ==
 TentForms == {f \in FileForms : f.kind = "obj" /\ ~f.tls /\ ~(f.sc = "extern" /\ f.def = "init")}
 IdRank(id) == IF id = "x" THEN 1 ELSE IF id = "y" THEN 2 ELSE IF id = "z" THEN 3 ELSE 4
 
+FnForms == {[sc |-> "none", tls |-> FALSE, inl |-> FALSE, kind |-> "fname", def |-> df] : df \in {"eval", "sizeof"}}
+           \cup {[sc |-> "static", tls |-> FALSE, inl |-> FALSE, kind |-> "obj", def |-> "none"]}
+
 CurPath == IF hist = <<>> THEN <<>> ELSE hist[Len(hist)].path
 
 (* paths reachable from the current one: keep k levels, open m fresh blocks *)
@@ -473,14 +518,16 @@ Extensible ==
 Next ==
   /\ Extensible
   /\ \E id \in Ids, p \in NextPaths, a \in (IF AsmForms THEN Bool ELSE {FALSE}) :
-       \E f \in (IF Family = "tentative" THEN TentForms ELSE IF p = <<>> THEN FileForms ELSE BlockForms) :
+       \E f \in (IF Family = "tentative" THEN TentForms ELSE IF Family = "funcname" THEN FnForms
+                 ELSE IF p = <<>> THEN FileForms ELSE BlockForms) :
          LET firstdecl == ~\E j \in 1..Len(hist) : hist[j].id = id IN
-         /\ MixKinds \/ \A j \in 1..Len(hist) : hist[j].id = id => hist[j].kind = f.kind
+         /\ Family = "funcname" => p # <<>>
+         /\ f.kind = "fname" \/ MixKinds \/ \A j \in 1..Len(hist) : hist[j].id = id => hist[j].kind = f.kind
          /\ a => /\ firstdecl
                  /\ \/ p = <<>> /\ f.def # "body"
                     \/ p # <<>> /\ f.kind = "obj" /\ f.sc \in {"static", "extern"}     \* labelled block-scope static / extern
          /\ (AsmFirst /\ firstdecl) => a
-         /\ f.kind \in Kinds
+         /\ f.kind \in Kinds \cup {"fname"}
          /\ Family = "tentative" =>
               /\ p = <<>>
               /\ \A id2 \in Ids : IdRank(id2) < IdRank(id) => \E j \in 1..Len(hist) : hist[j].id = id2
@@ -489,7 +536,7 @@ Next ==
               /\ f.def # "body"
               /\ hist # <<>> => LET q == hist[Len(hist)] IN
                                 p = q.path /\ f.sc = q.sc /\ f.tls = q.tls /\ f.inl = q.inl
-         /\ Declare([id |-> id, path |-> p, sc |-> f.sc, tls |-> f.tls, inl |-> f.inl, kind |-> f.kind,
+         /\ Declare([id |-> IF f.kind = "fname" THEN FnId ELSE id, path |-> p, sc |-> f.sc, tls |-> f.tls, inl |-> f.inl, kind |-> f.kind,
                      def |-> f.def, asm |-> a, join |-> (Family = "declarators" /\ hist # <<>>)])
 
 Spec == Init /\ [][Next]_vars
@@ -539,7 +586,7 @@ Case ==
 Code(d) == (IF d.sc = "none" THEN 0 ELSE IF d.sc = "static" THEN 1 ELSE 2) + 3 * (IF d.tls THEN 1 ELSE 0)
            + 6 * (IF d.inl THEN 1 ELSE 0) + 12 * (IF d.kind = "obj" THEN 0 ELSE 1)
            + 24 * (IF d.def = "none" THEN 0 ELSE 1) + 48 * Len(d.path) + 144 * (IF d.asm THEN 1 ELSE 0)
-           + 288 * (IF d.path = <<>> THEN 0 ELSE d.path[Len(d.path)])
+           + 288 * (IF d.path = <<>> THEN 0 ELSE d.path[Len(d.path)]) + 577 * (IF d.def = "sizeof" THEN 1 ELSE 0)
 RECURSIVE HashFrom(_, _)
 HashFrom(k, acc) == IF k > Len(hist) THEN acc ELSE HashFrom(k + 1, (acc * 31 + Code(hist[k]) + 7) % 1000003)
 Sampled == SampleMod = 1 \/ Len(hist) < MaxLen \/ HashFrom(1, 17) % SampleMod = 0
